@@ -15,7 +15,7 @@ from .c13 import outcome
 
 GCC = ['gcc', '-std=c99', '-pedantic-errors', '-Wall', '-Wextra', '-fPIC', '-shared']
 OUTSIDE = ['REAL', 'OBJECT IDENTIFIER', 'IA5String', 'UTF8String', 'INTEGER-unbounded', 'SET', 'UTCTime',
-           'BIT STRING-variable', 'recursion']
+           'BIT STRING-variable', 'recursion', 'additions']
 
 
 def c_profile(codec, outside):
@@ -78,6 +78,68 @@ def strip_additions(spec):
     spec.link()
 
 
+def has_unknown_alternative(v):
+    if isinstance(v, tuple) and len(v) == 2:
+        if v[0] is None and v[1] is None:
+            return True
+        return has_unknown_alternative(v[1]) if isinstance(v[0], str) else False
+    if isinstance(v, dict):
+        return any(has_unknown_alternative(x) for x in v.values())
+    if isinstance(v, list):
+        return any(has_unknown_alternative(x) for x in v)
+    return False
+
+
+def uses_additions(spec, ty, modname, v):
+    r = asn.resolve(spec, ty, modname)
+    b = r.base
+    if b.kind in ('SEQUENCE', 'SET') and isinstance(v, dict):
+        adds = set()
+        for a in (b.ext or []):
+            for m in (a.members if isinstance(a, asn.Group) else [a]):
+                adds.add(m.name)
+        if any(k in adds for k in v):
+            return True
+        return any(uses_additions(spec, m.ty, r.mod, v[m.name]) for m in b.all_members() if m.name in v)
+    if b.kind == 'CHOICE' and isinstance(v, tuple):
+        for m in b.all_members():
+            if m.name == v[0]:
+                return uses_additions(spec, m.ty, r.mod, v[1])
+        return False
+    if b.kind in ('SEQUENCE OF', 'SET OF') and isinstance(v, list):
+        return any(uses_additions(spec, b.elem, r.mod, x) for x in v)
+    return False
+
+
+def strip_choice_additions(spec):
+    n_ = 0
+    for m in spec.modules:
+        for _, t in m.types:
+            for n in t.walk():
+                if n.kind == 'CHOICE' and n.ext:
+                    n.ext = []
+                    n_ += 1
+    spec.link()
+    return n_
+
+
+def simplify_additions(spec):
+    """known finding oer-c-addition-length-static: give every SEQUENCE addition of constructed type a
+    primitive type instead (the search then goes on behind that finding); returns how many were replaced"""
+    n_ = 0
+    for m in spec.modules:
+        for _, t in m.types:
+            for n in t.walk():
+                if n.kind == 'SEQUENCE' and n.ext:
+                    for a in n.ext:
+                        for mem in (a.members if isinstance(a, asn.Group) else [a]):
+                            if asn.base_kind(spec, mem.ty, m.name) in ('SEQUENCE', 'CHOICE', 'SEQUENCE OF'):
+                                mem.ty = asn.Ty('INTEGER', rng=asn.Rng(0, 65535))
+                                n_ += 1
+    spec.link()
+    return n_
+
+
 @st.composite
 def cases(draw, codec):
     outside = None
@@ -86,7 +148,14 @@ def cases(draw, codec):
     prof = c_profile(codec, outside)
     spec = draw(gen.specs(prof))
     if codec == 'uper':
-        strip_additions(spec)
+        if outside != 'additions':
+            strip_additions(spec)
+    elif draw(st.integers(0, 99)) < 90:
+        # known finding c-choice-additions-dropped: excluded by construction in 9 of 10 modules so that the
+        # search goes on behind it
+        strip_choice_additions(spec)
+    if codec == 'oer' and draw(st.integers(0, 99)) < 85:
+        simplify_additions(spec)
     vg = values.VG(draw, spec, values.ValCfg(max_len=12, max_depth=3, out_of_root=False, dirty_bits=False,
                                              partial_additions=True))
     items = []
@@ -136,7 +205,7 @@ class CGenCheck(Check):
                 return ('ok', json.loads(line[7:]))
         return ('crash', 'no result: ' + p.stdout.decode()[-200:])
 
-    def pipeline(self, rec, spec, items, outside, spec2=None, log=None, v2items=None, fuzz_runs=0):
+    def pipeline(self, rec, spec, items, outside, spec2=None, log=None, v2items=None, fuzz_runs=0, foreign_pre=None):
         codec = self.codec
         text = spec.text()
         base_case = {'spec': jsonio.spec_enc(spec), 'text': spec.texts(), 'codec': codec, 'outside': outside}
@@ -181,7 +250,7 @@ class CGenCheck(Check):
                         rec.cls('python-rejects-value')
                         continue
                     jv.append({'value': jsonio.enc(v), 'encoded': bytes(e[1]).hex()})
-                foreign = []
+                foreign = list((foreign_pre or {}).get((modname, name), []))
                 if spec2 is not None and v2items:
                     c2 = outcome(asn1tools.compile_string, spec2.text(), codec)
                     if c2[0] == 'ok':
@@ -206,7 +275,10 @@ class CGenCheck(Check):
             if fuzz_runs:
                 self.fuzz(rec, work, base_case, feats, job_items, fuzz_runs)
         finally:
-            shutil.rmtree(work, ignore_errors=True)
+            if os.environ.get('ASN1V_KEEP'):
+                sys.stderr.write('kept %s\n' % work)
+            else:
+                shutil.rmtree(work, ignore_errors=True)
 
     def judge(self, rec, spec, spec2, base_case, feats, job_items, res, log):
         for item, r in zip(job_items, res):
@@ -216,10 +288,19 @@ class CGenCheck(Check):
             def F(kind, msg, vj=None):
                 case = dict(base_case, module=modname, type=name, value=(vj or {}).get('value'),
                             encoded=(vj or {}).get('encoded'))
+                if (vj or {}).get('foreign'):
+                    case['foreign'] = vj['foreign']
+                    case['log'] = vj.get('log')
                 rec.fail(Failure(kind, '%s.%s: %s' % (modname, name, msg), case,
                                  feats + sorted(common.type_features(spec, ty, modname))))
             if 'error' in r:
                 F('mis-translation', r['error'])
+                continue
+            if r.get('named_bits_checked'):
+                rec.ev()
+                rec.cls('named-bit-constants-checked')
+            if r.get('named_bit_errors'):
+                F('named-bit-constant', '; '.join(r['named_bit_errors'][:3]))
                 continue
             for vj, one in zip(item['values'], r['results']):
                 rec.ev()
@@ -228,7 +309,12 @@ class CGenCheck(Check):
                     F('mis-translation', 'the struct cannot hold the value: ' + one['shape_error'], vj)
                     continue
                 if 'map_error' in one:
-                    rec.notes['driver-map-error:' + one['map_error'][:60]] += 1
+                    rec.notes['driver-map-error:' + one['map_error'][:40] + ' .. ' + one['map_error'][-70:]] += 1
+                    continue
+                if self.codec == 'uper' and one['c_encode_ret'] < 0 and uses_additions(spec, ty, modname,
+                                                                                      jsonio.dec(vj['value'])):
+                    # documented limitation: the UPER C code refuses extension additions at run time
+                    rec.cls('uper-addition-refused-at-run-time')
                     continue
                 if one['c_encode_ret'] != len(want) // 2 or one['c_encoded'] != want:
                     F('encode-differs', 'C encode returned %d bytes %s, Python %s gives %s' % (
@@ -241,6 +327,9 @@ class CGenCheck(Check):
                     F('short-buffer-accepted', 'C encode into %d bytes (needs %d) returned %d, canary intact=%s' % (
                         one['small_buffer_failures'][0][0], len(want) // 2, one['small_buffer_failures'][0][1],
                         one['small_buffer_failures'][0][2]), vj)
+                    continue
+                if not one.get('decode_canary_ok', True):
+                    F('decode-overrun', 'C decode of %s wrote outside the destination struct' % want[:80], vj)
                     continue
                 if one['c_decode_ret'] != len(want) // 2:
                     F('decode-differs', 'C decode of %s returned %d (expected %d)' % (
@@ -258,22 +347,40 @@ class CGenCheck(Check):
                 rec.ev()
                 v2 = jsonio.dec(fj['value'])
                 want = evolve.project(spec, ty, modname, v2)
+                if has_unknown_alternative(want):
+                    # a V2 alternative in a position V1 knows: the struct has no selector value for it, so the
+                    # property's "skips unknown extension additions" (SEQUENCE additions) does not cover it
+                    rec.cls('v2-alternative-unrepresentable-in-v1-struct:' +
+                            ('rejected' if fr['c_decode_ret'] < 0 else 'accepted'))
+                    continue
                 if fr['c_decode_ret'] < 0:
                     F('v1-c-decoder-rejects-v2', 'C decoder of V1 returned %d on a V2 encoding %s (steps %s)' % (
-                        fr['c_decode_ret'], fj['bytes'][:80], log), {'value': fj['value'], 'encoded': fj['bytes']})
+                        fr['c_decode_ret'], fj['bytes'][:80], log), {'value': None, 'foreign': fj, 'log': log})
+                    continue
+                if fr['c_decode_ret'] != len(fj['bytes']) // 2:
+                    F('v1-c-decoder-misreads-v2', 'V1 C decoder consumed %d of the %d bytes of a V2 encoding %s '
+                      '(steps %s)' % (fr['c_decode_ret'], len(fj['bytes']) // 2, fj['bytes'][:80], log),
+                      {'value': None, 'foreign': fj, 'log': log})
                     continue
                 if 'decoded' in fr:
                     back = jsonio.dec(fr['decoded'])
                     d = aeq.aeq(spec, ty, modname, want, back, aeq.EqCfg())
                     if d:
                         F('v1-c-decoder-misreads-v2', 'V1 C decoder on V2 bytes: %s (steps %s)' % (d, log),
-                          {'value': fj['value'], 'encoded': fj['bytes']})
+                          {'value': None, 'foreign': fj, 'log': log})
                         continue
                     rec.cls('v1-c-on-v2-agrees')
 
     def fuzz(self, rec, work, base_case, feats, job_items, runs):
         """the generator's own libFuzzer harness under ASan+UBSan, seeded with valid encodings and prefixes"""
         exe = os.path.join(work, 'fuzzer')
+        if self.codec == 'oer':
+            # the harness re-encodes an accepted input into a buffer of the input's size; an OER input written by
+            # an older version (shorter addition mask) legitimately re-encodes longer, so give it room
+            fz = open(os.path.join(work, 'fuzz.c')).read()
+            fz = fz.replace('uint8_t encoded[size];', 'uint8_t encoded[8 * size + 64];')
+            fz = fz.replace('uint8_t encoded2[size];', 'uint8_t encoded2[8 * size + 64];')
+            open(os.path.join(work, 'fuzz.c'), 'w').write(fz)
         p = subprocess.run(['clang', '-fsanitize=fuzzer,address,undefined', '-fno-sanitize=vla-bound', '-fno-sanitize-recover=all', '-g', '-O1',
                             '-o', exe, os.path.join(work, 'gen.c'), os.path.join(work, 'fuzz.c')],
                            capture_output=True)
@@ -291,17 +398,40 @@ class CGenCheck(Check):
                     with open(os.path.join(corpus, 'c%d' % k), 'wb') as f:
                         f.write(data[:cut])
                     k += 1
+            for fj in item.get('foreign', []):
+                with open(os.path.join(corpus, 'c%d' % k), 'wb') as f:
+                    f.write(bytes.fromhex(fj['bytes']))
+                k += 1
         rec.ev()
-        p = subprocess.run([exe, '-runs=%d' % runs, '-seed=%d' % (env.seed() or 1), '-max_len=256',
-                            '-artifact_prefix=' + work + '/', corpus], capture_output=True, timeout=600)
+        try:
+            p = subprocess.run(['stdbuf', '-o0', exe, '-runs=%d' % runs, '-seed=%d' % (env.seed() or 1), '-max_len=256',
+                                '-timeout=20', '-artifact_prefix=' + work + '/', corpus],
+                               capture_output=True, timeout=900)
+        except subprocess.TimeoutExpired:
+            rec.notes['libfuzzer-campaign-timeout'] += 1
+            return
         rec.cls('libfuzzer-campaigns')
         if p.returncode != 0:
             tail = p.stderr.decode('utf-8', 'replace')
+            outp = p.stdout.decode('utf-8', 'replace')
             crash = [fn for fn in os.listdir(work) if fn.startswith(('crash-', 'leak-', 'timeout-', 'oom-'))]
             data = open(os.path.join(work, crash[0]), 'rb').read().hex() if crash else None
             summary = [l for l in tail.splitlines() if 'ERROR' in l or 'SUMMARY' in l or 'runtime error' in l][:3]
-            rec.fail(Failure('sanitizer-report', 'libFuzzer/ASan/UBSan on the generated decoder: %s; input %s' % (
-                summary, data), dict(base_case, fuzz_input=data), feats))
+            sanitizer = ('AddressSanitizer' in tail or 'runtime error' in tail or 'LeakSanitizer' in tail
+                         or 'MemorySanitizer' in tail)
+            trap = [l for l in outp.splitlines() if 'failed with' in l or 'does not match' in l]
+            case = dict(base_case, fuzz_input=data)
+            if sanitizer or not trap:
+                kind = 'decoder-hang' if (crash and crash[0].startswith('timeout-')) else 'sanitizer-report'
+                rec.fail(Failure(kind, 'libFuzzer/ASan/UBSan on the generated decoder: %s; input %s' % (
+                    summary, data), case, feats))
+            elif self.codec == 'uper':
+                # C09: "anything it accepts re-encodes and re-decodes to the same struct"
+                rec.fail(Failure('accepted-input-not-stable', 'the generated harness trapped: %s; input %s' % (
+                    trap[0][:100], data), case, feats))
+            else:
+                # C10 claims memory safety only on arbitrary input
+                rec.cls('harness-trap(not claimed by C10):' + trap[0].split(' with')[0][:40])
 
     def run_shard(self, shard, tier, seed, rec):
         scale = float(os.environ.get('ASN1V_SCALE', '1'))
@@ -319,10 +449,18 @@ class CGenCheck(Check):
                 rec.sample({'module_text': spec.text(), 'codec': self.codec, 'outside_subset': outside})
         hyp_run(cases(self.codec), body, seed, n, rec, shrink=shard.get('_shrink', False),
                 timeout=shard.get('_timeout'))
+        bad = [k for k in rec.notes if k.startswith('driver-map-error')]
+        if bad:
+            # the struct mapper itself failed: that is a defect of this harness, never a verdict
+            raise env.InfraError('C driver could not map values: %r' % bad[:3])
 
     def replay(self, case, rec):
         spec = jsonio.spec_dec(case['spec'])
         items = []
+        if case.get('foreign'):
+            self.pipeline(rec, spec, [(case['module'], case['type'], [])], case.get('outside'), log=case.get('log'),
+                          foreign_pre={(case['module'], case['type']): [case['foreign']]})
+            return
         if case.get('type') and case.get('value') is not None:
             items = [(case['module'], case['type'], [jsonio.dec(case['value'])])]
         else:
